@@ -121,8 +121,8 @@ func runC15(c *Ctx) {
 		items = append(items, fmt.Sprintf("mk_tk %d [%s] [%s] [%s]", ci, strings.Join(intervals, "; "), strings.Join(events, "; "), strings.Join(seen, "; ")))
 	}
 	c.WriteCoqSharded("cases_C15", "From Verif Require Import Base Ticker RunTicker.\nOpen Scope Z_scope.\n", "tkcase", items, "ticker_mismatches", 50)
-	c.Rep.Cases = len(cases)
-	c.Rep.Rule = "real validators with update_interval 150..900 ms, 1..3 instances in one process with phase offsets, CRL known via CDP or crl_urls, fetch mode active/background, origin failing the first k refreshes; the origin logs every fetch with its time; oracle: no gap between fetches above 2.25 intervals, and a certificate revoked by a newly published CRL is rejected within 2.5 intervals; the ideal tick schedule is evaluated in the model and compared tick by tick"
+	c.Rep.Cases = len(cases) + c15ProvisionStage(c)
+	c.Rep.Rule = "real validators with update_interval 150..900 ms, 1..3 instances in one process with phase offsets, CRL known via CDP or crl_urls, fetch mode active/background, origin failing the first k refreshes; the origin logs every fetch with its time; oracle: no gap between fetches above 2.25 intervals, and a certificate revoked by a newly published CRL is rejected within 2.5 intervals; the ideal tick schedule is evaluated in the model and compared tick by tick; plus, for crl_urls/crl_files x fetch mode x backend with a 150 ms origin, the first handshake after Provision (and after a restart) rejects a certificate on the configured list"
 }
 
 func c15Run(c *Ctx, ci int, cs *c15Case) {
